@@ -26,6 +26,8 @@ import json
 import multiprocessing
 import os
 import random
+import shutil
+import tempfile
 import warnings
 
 from . import core
@@ -101,6 +103,7 @@ def conc_map(rng, syms, oc=None, vc=None):
         if syms[i] == "cr" and syms[i + 1] == "nl":
             crlf = False            # `cr nl` IS a CRLF for the spec; keep it one
     m["nl"] = "\r\n" if crlf else "\n"
+    m["MAGIC"] = "## -*- coding: utf-8 -*-" + m["nl"]
     m["DEF"] = '<%%def name="%s()">' % rng.choice(["f1", "gq"])
     m["DE2"] = '<%def name="h2(x=1)">'
     return m
@@ -169,12 +172,80 @@ def normal_form(items):
     return res
 
 
-def run_lexer(text, cursor=None):
+# ----------------------------------------------------------------------------- input routes
+ROUTE_OPS = [["id"], ["del"], ["ins"], ["exp"], ["ins", "exp"], ["del", "ins"], ["exp", "del"]]
+ROUTE_SYMS = ["w", "sp", "nl", "cr", "pc", "hs", "bs", "lt", "sl", "dl", "lb", "rb", "TX", "o"]
+ROUTE_EXTRA = [
+    "w dl lb w rb nl pc pc w o w",
+    "o w nl hs hs w nl lt pc TX gt o lt sl pc TX gt o",
+    "MAGIC w o nl pc pc w",
+    "w bs nl o lt pc sp pc gt w dl lb w rb",
+    "MAGIC o dl lb w rb o",
+]
+FORMS = ["str", "bytes-utf8", "bytes-bom", "bytes-utf16+input_encoding"]
+ENTRIES = ["Template(text)", "TemplateLookup.put_string", "Template(filename)", "TemplateLookup(directories)"]
+
+
+def preprocessors(ops, m, src, bare=False):
+    """The real preprocessor callables for the operations of a route (MakoLexer.ApplyOp), on concrete text."""
+    fns = []
+    for k, op in enumerate(ops):
+        if op == "id":
+            fns.append(lambda t: t)
+        elif op == "del":
+            # deletes the first symbol of the text it receives: what that symbol is depends on the operations before it
+            first = apply_ops_syms(ops[:k], src)[:1]
+            n = len(cat(m, first))
+            fns.append(lambda t, n=n: t[n:])
+        elif op == "ins":
+            hdr = cat(m, ["hs", "hs", "w", "nl"])
+            fns.append(lambda t, hdr=hdr: hdr + t)
+        elif op == "exp":
+            a, b = m["o"], "${" + m["w"] + "}"
+            fns.append(lambda t, a=a, b=b: t.replace(a, b))
+        else:
+            raise MachineryError("unknown route operation %r" % op)
+    if not fns:
+        return None
+    if bare and len(fns) == 1:
+        return fns[0]                    # a single callable instead of a list
+    return fns
+
+
+def apply_ops_syms(ops, syms):
+    """The symbols of the text after the operations (concretisation helper: which symbol `del` removes, and the symbol
+    offsets of a recorded document).  Expected trees never come from here: TLC computes Transform itself."""
+    s = list(syms)
+    for op in ops:
+        if op == "del":
+            s = s[1:]
+        elif op == "ins":
+            s = ["hs", "hs", "w", "nl"] + s
+        elif op == "exp":
+            s = [y for x in s for y in (["dl", "lb", "w", "rb"] if x == "o" else [x])]
+    return s
+
+
+def in_form(text, form):
+    """(source object handed to Mako, input_encoding)"""
+    if form == 1 and text.startswith("\ufeff"):
+        form = 2          # in BYTES a leading EF BB BF is an encoding signature, not a character: such a source carries its own
+    if form == 1:
+        return text.encode("utf-8"), None
+    if form == 2:
+        return b"\xef\xbb\xbf" + text.encode("utf-8"), None
+    if form == 3:
+        return text.encode("utf-16"), "utf-16"
+    return text, None
+
+
+def run_lexer(text, cursor=None, pre=None, form=0):
     """('ok', normal form) | ('mako', ExcType, lineno, pos, msg) | ('exc', ExcType, msg)"""
     from mako import exceptions
     from mako.lexer import Lexer
     try:
-        lx = Lexer(text)
+        given, enc = in_form(text, form)
+        lx = Lexer(given, input_encoding=enc, preprocessor=pre)
         if cursor is not None:
             orig = lx.match_end
 
@@ -192,15 +263,36 @@ def run_lexer(text, cursor=None):
         return ("exc", type(e).__name__, str(e)[:120])
 
 
-def run_render(text, ctx):
+def run_render(text, ctx, pre=None, form=0, entry=0):
     from mako import exceptions
+    from mako.lookup import TemplateLookup
     from mako.template import Template
+    tmp = None
     try:
-        return ("ok", Template(text).render_unicode(**ctx))
+        given, enc = in_form(text, form)
+        if entry == 1:
+            lk = TemplateLookup(preprocessor=pre, input_encoding=enc)
+            lk.put_string("t.html", given)
+            t = lk.get_template("t.html")
+        elif entry in (2, 3):
+            tmp = tempfile.mkdtemp(prefix="mv-c01-", dir="/dev/shm" if os.path.isdir("/dev/shm") else None)
+            fn = os.path.join(tmp, "t.html")
+            with open(fn, "wb") as f:
+                f.write(given if isinstance(given, bytes) else in_form(given, 1)[0])      # a file holds bytes
+            if entry == 2:
+                t = Template(filename=fn, preprocessor=pre, input_encoding=enc)
+            else:
+                t = TemplateLookup(directories=[tmp], preprocessor=pre, input_encoding=enc).get_template("t.html")
+        else:
+            t = Template(given, preprocessor=pre, input_encoding=enc)
+        return ("ok", t.render_unicode(**ctx))
     except (exceptions.SyntaxException, exceptions.CompileException) as e:
         return ("mako", type(e).__name__, e.lineno, e.pos, str(e)[:120])
     except Exception as e:
         return ("exc", type(e).__name__, str(e)[:120])
+    finally:
+        if tmp:
+            shutil.rmtree(tmp, ignore_errors=True)
 
 
 # ----------------------------------------------------------------------------- spec outcomes, concretised
@@ -423,15 +515,25 @@ def classify(alts, calts, real, render_obs):
 def check_string(job):
     """job = (syms, alts, seed) -> None | dict describing the disagreement; also returns counters."""
     syms, alts, seed, do_render = job[:4]
-    oc, vc = (tuple(job) + (None, None))[4:6]
+    oc, vc, route = (tuple(job) + (None, None, None))[4:7]
     warnings.simplefilter("ignore")        # SyntaxWarnings of CPython about the generated Python fragments
     rng = random.Random(seed)
-    m = conc_map(rng, syms, oc, vc)
+    # the input route: `syms` is the text TLC lexed (after Transform); the source handed to Mako is route["src"], it reaches
+    # the lexer through the preprocessors of route["ops"], in one of FORMS, and the renderer through one of ENTRIES
+    if route is None:
+        route = {"src": syms, "ops": [], "form": (seed // 7) % len(FORMS),
+                 "entry": ((seed // 31) % 2) if (seed // 5) % 16 else 2 + (seed // 31) % 2}
+    src = route["src"]
+    m = conc_map(rng, list(src) + ["sp"] + list(syms), oc, vc)
+    given = cat(m, src)
+    pre = preprocessors(route["ops"], m, src, bare=bool(seed % 2))
+    form, entry = route["form"], route["entry"]
     text = cat(m, syms)
     off = offsets(m, syms)
     nlines = text.count("\n")
     calts = [concretise_alt(a, m, syms, text, off) for a in alts]
-    real = run_lexer(text)
+    real = run_lexer(given, None, pre, form)
+    how = {"given": given, "preprocessor": route["ops"], "form": FORMS[form], "entry": ENTRIES[entry]}
     hit = None
     for a, c in zip(alts, calts):
         if lexer_agrees(c, real, nlines):
@@ -446,16 +548,16 @@ def check_string(job):
     if hit is None:
         robs = None
         if real[0] == "ok":
-            robs = run_render(text, make_ctx())
+            robs = run_render(given, make_ctx(), pre, form, entry)
         sig = classify(alts, calts, real, robs)
         return {"sig": sig, "text": text, "syms": syms, "expected": calts, "observed": real, "render": robs,
-                "stage": "lexer"}, rendered
+                "stage": "lexer", "route": how}, rendered
     if do_render and real[0] == "ok":
         ctx = make_ctx()
         exp = expected_render(hit[0], m, ctx)
         if exp is not None:
             rendered = 1
-            robs = run_render(text, ctx)
+            robs = run_render(given, ctx, pre, form, entry)
             good = (exp[0] == "ok" and robs[0] == "ok" and robs[1] == exp[1]) or \
                    (exp[0] == "exc" and robs[0] == "exc" and robs[1] == exp[1])
             if not good:
@@ -466,7 +568,7 @@ def check_string(job):
                 else:
                     mode = "render-" + (robs[1] if robs[0] != "ok" else "ok-but-expected-" + str(exp[1]))
                 return {"sig": "render:%s:%s" % (site, mode), "text": text, "syms": syms, "expected": exp,
-                        "observed": robs, "stage": "render"}, rendered
+                        "observed": robs, "stage": "render", "route": how}, rendered
     return None, rendered
 
 
@@ -479,17 +581,19 @@ def _pool_map(fn, jobs, procs):
 
 
 # ----------------------------------------------------------------------------- TLC enumeration
-def mc_cfg(syms, first, k, with_empty, invariants=True):
+def mc_cfg(syms, first, k, with_empty, invariants=True, rk=0):
     q = lambda xs: "{" + ", ".join('"%s"' % x for x in xs) + "}"
-    return ("CONSTANTS K = %d\n Sym = %s\n First = %s\n WithEmpty = %s\n Prefix <- PrefixDef\n Extra <- ExtraDef\n"
+    return ("CONSTANTS K = %d\n Sym = %s\n First = %s\n WithEmpty = %s\n RK = %d\n Prefix <- PrefixDef\n Extra <- ExtraDef\n"
+            " Routes <- RoutesDef\n RExtra <- RExtraDef\n"
             "SPECIFICATION MCSpec\nINVARIANT PrintTerminal Accounting Iterations ErrOrTree\nPROPERTY Progress\n"
-            "CHECK_DEADLOCK FALSE\n") % (k, q(syms), q(first), "TRUE" if with_empty else "FALSE")
+            "CHECK_DEADLOCK FALSE\n") % (k, q(syms), q(first), "TRUE" if with_empty else "FALSE", rk)
 
 
-def mcx_module(prefix, extra):
+def mcx_module(prefix, extra, routes=(), rextra=()):
     seq = lambda xs: "<<" + ", ".join('"%s"' % x for x in xs) + ">>"
-    return ("---- MODULE MCX_MakoLexer ----\nEXTENDS MC_MakoLexer\nPrefixDef == %s\nExtraDef == {%s}\n====\n"
-            % (seq(prefix), ", ".join(seq(x) for x in extra)))
+    return ("---- MODULE MCX_MakoLexer ----\nEXTENDS MC_MakoLexer\nPrefixDef == %s\nExtraDef == {%s}\n"
+            "RoutesDef == {%s}\nRExtraDef == {%s}\n====\n"
+            % (seq(prefix), ", ".join(seq(x) for x in extra), ", ".join(seq(x) for x in routes), ", ".join(seq(x) for x in rextra)))
 
 
 MATCHERS = ["MatchEnd", "MatchExpression", "MatchControlLine", "MatchLineComment", "MatchDocComment", "MatchTagStart",
@@ -497,10 +601,10 @@ MATCHERS = ["MatchEnd", "MatchExpression", "MatchControlLine", "MatchLineComment
 
 
 def enumerate_strings(run, name, syms, k, prefix=(), extra=(), first=None, with_empty=True, workers=None,
-                      need=MATCHERS, coverage=False):
-    res = run.tlc("MCX_MakoLexer", mc_cfg(syms, first or syms, k, with_empty), name=name, coverage=coverage,
+                      need=MATCHERS, coverage=False, routes=(), rk=0, rextra=()):
+    res = run.tlc("MCX_MakoLexer", mc_cfg(syms, first or syms, k, with_empty, rk=rk), name=name, coverage=coverage,
                   workers=workers, timeout=1500,
-                  extra_files={"MCX_MakoLexer.tla": mcx_module(list(prefix), [list(x) for x in extra])})
+                  extra_files={"MCX_MakoLexer.tla": mcx_module(list(prefix), [list(x) for x in extra], routes, rextra)})
     if res.violated:
         run.spec_violation(res, "TLC: %s violated in the reference lexer model (%s)" % (res.violated, name))
         raise MachineryError("reference lexer model violates its own invariant %s" % res.violated)
@@ -511,7 +615,7 @@ def enumerate_strings(run, name, syms, k, prefix=(), extra=(), first=None, with_
     for rec in res.json_lines():
         if not isinstance(rec, dict) or "t" not in rec:
             continue
-        key = tuple(rec["t"])
+        key = tuple(rec["t"]) if not rec.get("route") else ("@route", tuple(rec["src"]), tuple(rec["route"]))
         alts = by.setdefault(key, [])
         if rec not in alts:
             alts.append(rec)
@@ -521,7 +625,7 @@ def enumerate_strings(run, name, syms, k, prefix=(), extra=(), first=None, with_
 def replay(run, label, by, procs, render_every=1, all_classes=False):
     jobs = []
     lead = {"o": 0, "v": 0}
-    for idx, key in enumerate(sorted(by)):
+    for idx, key in enumerate(sorted(k for k in by if not (k and k[0] == "@route"))):
         h = int(hashlib.sha1(("%d|%s|%s" % (run.seed, label, " ".join(key))).encode()).hexdigest()[:8], 16)
         rend = (idx % render_every) == 0
         # the class of suspicious character behind o / v rotates over the enumeration (from the seed) ...
@@ -555,6 +659,33 @@ def replay(run, label, by, procs, render_every=1, all_classes=False):
             r["filler_classes"] = {"o": O_CLASSES[oc], "v": V_CLASSES[vc]}
             r["spec_outcomes"] = alts
             run.violation(r["sig"], "%r: expected (TLC) %s; observed %s" % (r["text"], _short(r["expected"]), _short(r["observed"])), r)
+    run.traces += len(jobs)
+    run.evaluations += len(jobs) + rendered
+    return len(jobs), rendered, bad
+
+
+def replay_routes(run, label, by, procs):
+    """Sources that reach the lexer through a pre-lexing route (TLC's Transform action): the expected tree is the one of
+    the TRANSFORMED text; the real code gets the source as given plus the preprocessor callables.  The form of the source
+    (str / bytes / BOM / input_encoding) and the entry point rotate over the enumeration, deterministically from the seed."""
+    jobs = []
+    for idx, key in enumerate(sorted(k for k in by if k and k[0] == "@route")):
+        _, src, ops = key
+        alts = by[key]
+        h = int(hashlib.sha1(("%d|%s|%s|%s" % (run.seed, label, " ".join(src), "+".join(ops))).encode()).hexdigest()[:8], 16)
+        entry = (idx + run.seed) % 2 if (idx + run.seed) % 24 else 2 + (idx // 24) % 2
+        route = {"src": list(src), "ops": list(ops), "form": (idx + run.seed) % len(FORMS), "entry": entry}
+        jobs.append((list(alts[0]["t"]), alts, h, True, h % len(O_CLASSES), (h // 64) % len(V_CLASSES), route))
+    results = _pool_map(check_string, jobs, procs)
+    bad = rendered = 0
+    for job, (r, rn) in zip(jobs, results):
+        rendered += rn % 1000000 if rn < 0 else rn
+        if r is not None:
+            bad += 1
+            r["spec_outcomes"] = job[1]
+            r["source_symbols"] = job[6]["src"]
+            run.violation(r["sig"], "%r through %s: lexed text %r: expected (TLC) %s; observed %s"
+                          % (r["route"]["given"], r["route"], r["text"], _short(r["expected"]), _short(r["observed"])), r)
     run.traces += len(jobs)
     run.evaluations += len(jobs) + rendered
     return len(jobs), rendered, bad
@@ -862,16 +993,21 @@ class Tokeniser:
         return out
 
 
-def record_document(syms, seed, oc=None, vc=None):
+def record_document(syms, seed, oc=None, vc=None, route=None):
     rng = random.Random(seed)
-    m = conc_map(rng, syms, oc, vc)
-    text = cat(m, syms)
-    off = offsets(m, syms)
+    route = route or {"ops": [], "form": 0, "entry": 0}
+    lexed = apply_ops_syms(route["ops"], syms)       # only to map the offsets the real lexer reports back to symbols
+    m = conc_map(rng, list(syms) + ["sp"] + lexed, oc, vc)
+    given = cat(m, syms)
+    pre = preprocessors(route["ops"], m, syms, bare=bool(seed % 2))
+    text = cat(m, lexed)
+    off = offsets(m, lexed)
     idx = {o: i + 1 for i, o in enumerate(off)}
     tok = Tokeniser(m, [("⟦", "X("), ("⟧", ")X")])
     cursor = []
-    real = run_lexer(text, cursor)
-    rec = {"syms": syms, "cursor": cursor, "res": "ok", "nodes": [], "out": [], "ep": 0, "el": 0}
+    real = run_lexer(given, cursor, pre, route["form"])
+    rec = {"syms": syms, "route": route["ops"], "cursor": cursor, "res": "ok", "nodes": [], "out": [], "ep": 0, "el": 0,
+           "how": {"form": FORMS[route["form"]], "entry": ENTRIES[route["entry"]]}}
 
     def sym_pos(l, c):
         # (line, col) -> symbol index (0: not on a symbol boundary)
@@ -927,7 +1063,7 @@ def record_document(syms, seed, oc=None, vc=None):
     ctx = {}
     for nm in W_POOL + U_POOL:
         ctx[nm] = "⟦" + nm + "⟧"
-    robs = run_render(text, ctx)
+    robs = run_render(given, ctx, pre, route["form"], route["entry"])
     if robs[0] == "ok":
         rec["out"] = tok(robs[1])
     else:
@@ -953,7 +1089,12 @@ def validate_documents(run, ndocs, lo, hi, procs, workers):
         first = ["o", "v"][i % 2]
         last = [None, "o", "v"][(i // 2) % 3]
         syms = DocGen(rng).document(n, first, last)
-        docs.append((syms, rng.randrange(1 << 30), (i // 2 + run.seed) % len(O_CLASSES), (i // 2 + run.seed) % len(V_CLASSES)))
+        # the input route rotates as well: preprocessor operations, form of the source, entry point, magic encoding comment
+        ops = ([[]] + ROUTE_OPS)[(i + run.seed) % (1 + len(ROUTE_OPS))]
+        if (i + run.seed) % 5 == 0 and "ins" not in ops:
+            syms = ["MAGIC"] + syms
+        route = {"ops": ops, "form": (i // 3 + run.seed) % len(FORMS), "entry": (i // 2 + run.seed) % len(ENTRIES)}
+        docs.append((syms, rng.randrange(1 << 30), (i // 2 + run.seed) % len(O_CLASSES), (i // 2 + run.seed) % len(V_CLASSES), route))
     recs = _pool_map(_record_job, docs, procs if ndocs >= 2000 else 1) if False else [_record_job(d) for d in docs]
     traces = []
     texts = {}
@@ -1042,6 +1183,19 @@ def check(run):
     for key in sorted(by)[:: max(1, len(by) // 5)][:5]:
         run.sample({"symbols": " ".join(key), "expected": by[key]})
 
+    # input routes: every source of <= 3 symbols (and the hand-picked ones) through every preprocessor route, with the
+    # Transform action producing the text that Accounting speaks about
+    rk = 4 if thorough else 3
+    resr, byr = enumerate_strings(run, "mc-routes", ROUTE_SYMS, 1, first=["w"], workers=workers, routes=ROUTE_OPS, rk=rk,
+                                  rextra=[x.split() for x in ROUTE_EXTRA])
+    if not any(a["ft"] and "coding-comment" in a["ft"] for k, alts in byr.items() if k and k[0] == "@route" for a in alts):
+        raise MachineryError("vacuous: the magic encoding comment is never stepped over in the route instance")
+    if not any(len(a["t"]) > len(k[1]) and len(a["n"]) >= 2 for k, alts in byr.items() if k and k[0] == "@route" for a in alts):
+        raise MachineryError("vacuous: no route lengthens a source with several nodes")
+    n, rn, bad = replay_routes(run, "routes", byr, procs)
+    stats["input routes: sources <= %d symbols x %d preprocessor routes" % (rk, len(ROUTE_OPS))] = {
+        "sources x routes": n, "rendered": rn, "disagreements": bad, "states": resr.distinct}
+
     # negative controls of the comparer: a corrupted expected outcome must be rejected
     nc = 0
     for key in sorted(by):
@@ -1123,6 +1277,8 @@ def check(run):
     run.assumptions.append("text is a sequence of symbols; filler words / non-ASCII / LF-vs-CRLF are chosen per string from the seed")
     run.assumptions.append("CPython's parser judges whether an expression's text is valid Python; <% %> bodies are compared modulo white space (C19)")
     run.assumptions.append("the time-polynomial clause is not checked")
+    run.assumptions.append("input routes: preprocessor operations id/del/ins/exp (and pairs), str / utf-8 bytes / BOM / utf-16 with "
+                           "input_encoding, magic coding comment, Lexer / Template / TemplateLookup.put_string / file entry points")
     return {"rule": "TLC enumerates all strings <= k symbols (Accounting, Progress, Iterations, ErrOrTree in every state) and prints every "
                     "acceptable outcome; each string is concretised and run through the real Lexer and Template.render_unicode and compared "
                     "on the normal form; long generated documents are recorded from the real code and re-lexed by Trace_MakoLexer",
